@@ -56,6 +56,7 @@ func cmdRun(args []string) {
 	realLog := fs.Bool("reallog", false, "execute the real syslog package")
 	term := fs.Bool("term", false, "budget excess is a violation")
 	steps := fs.Int("steps", 0, "max steps")
+	depth := fs.Int("depth", 0, "max call depth")
 	knownF := fs.String("known", "", "comma-separated known keys")
 	doReplay := fs.Bool("replay", false, "replay violations natively")
 	fs.Parse(args)
@@ -66,7 +67,7 @@ func cmdRun(args []string) {
 	}
 	fmt.Printf("load+ssa %.1fs\n", w.loadS)
 	spec := RunSpec{Name: *entry, Pkg: "github.com/go-kid/ioc/" + *pkg, Entry: *entry, Params: map[string]int{},
-		Opts: ExecOpts{PermuteRange: *perm, PermutePerCall: *permCall, PermuteCoarse: *permCoarse, Sched: *sched, MaxSwitches: *sw, Races: *races, RealSyslog: *realLog, Termination: *term, MaxSteps: *steps}}
+		Opts: ExecOpts{PermuteRange: *perm, PermutePerCall: *permCall, PermuteCoarse: *permCoarse, Sched: *sched, MaxSwitches: *sw, Races: *races, RealSyslog: *realLog, Termination: *term, MaxSteps: *steps, MaxDepth: *depth}}
 	if *pkg == "" {
 		spec.Pkg = "github.com/go-kid/ioc"
 	}
